@@ -58,6 +58,50 @@ func bucketCase(r *emit.Rand) (string, map[string]any) {
 	if r.Chance(1, 6) {
 		rem.Add(rem, r.Big(p18)) // non-integer remainder (later loop iterations)
 	}
+	return bucketCall(b4q, exactIn, feeR, sp, target, liq, rem)
+}
+
+type bucketInput struct {
+	tag             string
+	b4q, exactIn    bool
+	fee, sp, target *big.Int
+	liq, rem        *big.Int
+}
+
+func bigs(s string) *big.Int {
+	v, ok := new(big.Int).SetString(s, 10)
+	if !ok {
+		panic("bad literal " + s)
+	}
+	return v
+}
+
+// bucketCorpus: (1) the step found by the thorough run after the dust cap: 1.89 units of base into
+// liquidity 1.3e21 at sqrt price 1.8e-11 - the next price, rounded up twice, came out one ulp ABOVE
+// the current one and the step paid liquidity x ulp = 1323 units of quote for it; (2) the same
+// with amounts around the cost of one ulp; (3) a remainder below one unit after a tick (the band
+// that used to panic with a negative fee charge).
+func bucketCorpus() []bucketInput {
+	fee := bigs("3000000000000000")
+	lbig := bigs("1323027827718843346121535534668354600753")
+	var l []bucketInput
+	for i, rem := range []string{"1894887867063294064", "1", "1000000000000000000", "4000000000000000000000000000000000000000000", "40000000000000000000000000000000000000000000"} {
+		l = append(l, bucketInput{tag: fmt.Sprintf("overshoot/%d", i), b4q: true, exactIn: true, fee: fee, sp: bigs("18131478"), target: bigs("1061193"), liq: lbig, rem: bigs(rem)})
+	}
+	for i, rem := range []string{"292929292928101474", "999999999999999999", "1000000000000000001"} {
+		for _, b4q := range []bool{true, false} {
+			target := "990000000000000000"
+			if !b4q {
+				target = "1010000000000000000"
+			}
+			l = append(l, bucketInput{tag: fmt.Sprintf("dust/%d/%v", i, b4q), b4q: b4q, exactIn: true, fee: bigs("10000000000000000"), sp: bigs("1000000000000000000"), target: bigs(target), liq: bigs("6000000000000000000000000"), rem: bigs(rem)})
+		}
+	}
+	return l
+}
+
+func bucketCall(b4q, exactIn bool, feeR, sp, target, liq, rem *big.Int) (string, map[string]any) {
+	fee := feeR.String()
 	h := lpkeeper.New(b4q, legacy(target), legacy(feeR))
 	obs := "None"
 	info := map[string]any{"kind": "bucket", "b4q": b4q, "exact_in": exactIn, "fee": fee, "sp": sp.String(), "target": target.String(), "liq": liq.String(), "rem": rem.String()}
@@ -95,6 +139,16 @@ func Run(seed int64, n int, outDir string) error {
 	cf := &emit.CasesFile{Import: "Amm.C05Check", Runner: "run", Type: "c05_case"}
 	// pure bucket steps: cheap on both sides, go in their own shards
 	bf := &emit.CasesFile{Import: "Amm.C05Check", Runner: "run", Type: "c05_case"}
+	// corpus of bucket steps (every run): witnesses of repaired defects and their neighbours
+	for _, bc := range bucketCorpus() {
+		term, info := bucketCall(bc.b4q, bc.exactIn, bc.fee, bc.sp, bc.target, bc.liq, bc.rem)
+		info["tag"] = bc.tag
+		bf.Add(term)
+		st.Info(info)
+		st.Evaluations++
+		st.Count("bucket:corpus")
+		st.Nontriv("bucket/corpus/" + bc.tag)
+	}
 	nb := n * 6
 	for i := 0; i < nb; i++ {
 		term, info := bucketCase(w.R)
